@@ -146,7 +146,7 @@ def corr_scope(res, pid, rng, tier):
                    "password\n", "\n", "   \n", "key chain K\n", " no password\n", "set community 65000:100 additive\n",
                    "set community internet\n", "set community 100\n", "snmp-server community\n", "enable secret level 15 5\n"]:
             t.line(ln)
-        sess.op("falookup " + t.id, lambda t=t: "ok " + (";".join(cps(k) + ">" + cps(v) for k, v in t.obj.pwd_lookup.items()) or "-"))
+        # (the lookup table itself is internal state: compared by nobody - only behaviour counts)
     dis = sess.finish(post=lambda x: fa.model_out(x) if x.startswith("ok ") and x.count(" ") >= 2 else fa.subst_placeholders_reply(x))
     res.evaluations += len(sess.lines)
     res.traces += rounds
